@@ -656,8 +656,22 @@ class Resource(object):
             else:
                 container.eSet(feature, None)
 
+    def is_root(self, obj):
+        # the very object (or the object a proxy stands for) is listed: model
+        # classes may compare by value, an equal root is another object
+        target = object.__getattribute__(obj, '_wrapped') \
+            if type(obj) is Ecore.EProxy else None
+        return any(x is obj or (target is not None and x is target)
+                   for x in self.contents)
+
     def remove(self, root):
-        self.contents.remove(root)
+        contents = self.contents
+        for i, x in enumerate(contents):
+            if x is root:
+                del contents[i]
+                break
+        else:
+            contents.remove(root)  # a proxy of a root / not a root: as list
         root._eresource = None
 
     def open_out_stream(self, other=None):
